@@ -19,6 +19,8 @@
 //     G ...                                  growth-history lines (see grow())
 #include <algorithm>
 #include <cstdio>
+#include <cstdlib>
+#include <new>
 #include <deque>
 #include <functional>
 #include <iostream>
@@ -34,6 +36,57 @@
 
 using namespace ipr;
 namespace cf = ipr::cxx_form;
+
+// ------------------------------------------------------------------------------------------------ recycling allocator
+// While `recycler::on`, operator new serves requests from a static arena in which a freed block is handed out again for the next
+// request of its size, lowest address first: two owners (translation units) built one after the other by the same sequence of
+// requests place their parts at the SAME addresses -- what a production allocator typically does and what ASan's quarantine
+// prevents.  Used only by the `#recycled-unit` entries; everything else goes to malloc/free (checked by ASan as before).
+namespace recycler {
+   constexpr std::size_t SIZE = 1u << 20, GRAIN = 16, BINS = 512;
+   alignas(16) unsigned char arena[SIZE];
+   std::size_t top = 0;
+   bool on = false;
+   struct Block { Block* next; std::size_t size; };      // header, GRAIN bytes
+   static_assert(sizeof(Block) <= GRAIN);
+   Block* bins[BINS];
+   bool owns(const void* p) { return p >= static_cast<const void*>(arena) and p < static_cast<const void*>(arena + SIZE); }
+   void* take(std::size_t n)
+   {
+      n = (n + GRAIN - 1) / GRAIN * GRAIN;
+      const std::size_t b = n / GRAIN;
+      if (b < BINS and bins[b] != nullptr) {
+         Block* blk = bins[b];
+         bins[b] = blk->next;
+         return reinterpret_cast<unsigned char*>(blk) + GRAIN;
+      }
+      if (b >= BINS or top + GRAIN + n > SIZE) return nullptr;
+      Block* blk = reinterpret_cast<Block*>(arena + top);
+      top += GRAIN + n;
+      blk->size = n;
+      return reinterpret_cast<unsigned char*>(blk) + GRAIN;
+   }
+   void give(void* p)
+   {
+      Block* blk = reinterpret_cast<Block*>(static_cast<unsigned char*>(p) - GRAIN);
+      Block** at = &bins[blk->size / GRAIN];
+      while (*at != nullptr and *at < blk) at = &(*at)->next;    // kept sorted by address
+      blk->next = *at;
+      *at = blk;
+   }
+   struct Scope { Scope() { on = true; } ~Scope() { on = false; } };
+}
+void* operator new(std::size_t n)
+{
+   if (recycler::on) if (void* p = recycler::take(n)) return p;
+   if (void* p = std::malloc(n ? n : 1)) return p;
+   throw std::bad_alloc{};
+}
+void* operator new[](std::size_t n) { return operator new(n); }
+void operator delete(void* p) noexcept { if (p == nullptr) return; if (recycler::owns(p)) recycler::give(p); else std::free(p); }
+void operator delete[](void* p) noexcept { operator delete(p); }
+void operator delete(void* p, std::size_t) noexcept { operator delete(p); }
+void operator delete[](void* p, std::size_t) noexcept { operator delete(p); }
 
 namespace {
    std::uint64_t mix(std::uint64_t h, std::uint64_t v)
@@ -59,6 +112,8 @@ namespace {
       int rounds = 1;
       std::deque<std::u8string> words;
       std::deque<impl::Token> tokens;
+      impl::stable_farm<impl::Token> token_farm;      // the container Lexicon::tokens is (Lexicon::make_token has no definition)
+      std::map<std::string, long> stats;              // `# stat <name> <count>` lines printed at the end
       std::deque<impl::ref_sequence<ipr::Attribute>> attr_seqs;
       std::deque<impl::Warehouse<ipr::Type>> warehouses;
       struct Made { std::string key; int inst; std::string result; std::size_t watermark; std::vector<std::string> fresh_args; };
@@ -100,6 +155,12 @@ namespace {
       std::vector<const ipr::Sequence<ipr::Type>*> type_seqs;
       std::vector<const impl::Warehouse<ipr::Type>*> whs;
       std::vector<const ipr::Literal*> literals;
+      std::vector<const ipr::Type*> qtypes;           // types with top-level cv-qualifiers
+      std::vector<const ipr::Decl*> redecls;          // second declarations of a (name, type) pair in one scope
+      std::vector<const ipr::Template*> retemplates;  // redeclared templates
+      std::vector<const ipr::Fundecl*> fundecls;
+      std::vector<const ipr::Enumerator*> enumerators;
+      std::vector<const ipr::Base_type*> bases;
 
       util::word_view word(std::mt19937_64& g)
       {
@@ -163,6 +224,27 @@ namespace {
       std::map<int, int> cursor;
       int need = 2;                                  // number of instances this entry wants (grows with enumerator domains)
       int nvals = 0;
+      bool ephemeral = false;                        // an operand of this call does not outlive it: the result is not re-read late
+      // Every operand that is not a node (enumerators, bit sets, levels, positions, words, warehouses) reaches the library from
+      // storage of the probe that is RE-USED: `scrub` (run by `done`, right after the factory call and before anything is read
+      // back) overwrites each of them with a different value.  A node that kept a reference instead of a copy reads the new value.
+      std::vector<std::function<void()>> scrubs;
+      template<class V>
+      V& slot(const V& v, const V& other)
+      {
+         static V cells[16];
+         static int next = 0;
+         V& cell = cells[next++ % 16];
+         cell = v;
+         scrubs.push_back([&cell, other] { cell = other; });
+         ++c.stats["by-value operands passed from re-used storage"];
+         return cell;
+      }
+      void scrub()
+      {
+         for (auto& f : scrubs) f();
+         scrubs.clear();
+      }
 
       Run(Ctx& cc, const std::string& k, int i, bool rep, std::string first = {})
          : c{cc}, key{k}, inst{i}, repeat{rep}, first_result{std::move(first)}, watermark{cc.ob.count()} { }
@@ -216,7 +298,29 @@ namespace {
       const ipr::Transfer& XF() { return pick(28, "Transfer", c.transfers); }
       const ipr::Substitution& SUB() { return pick(29, "Substitution", c.substitutions); }
       const ipr::Sequence<ipr::Type>& TS() { return pick(30, "Sequence<Type>", c.type_seqs); }
-      const impl::Warehouse<ipr::Type>& WH() { return pick(31, "Warehouse<Type>", c.whs); }
+      const impl::Warehouse<ipr::Type>& WH()
+      {
+         const auto& src = pick(31, "Warehouse<Type>", c.whs);
+         static impl::Warehouse<ipr::Type> cells[4];               // the client's warehouse is temporary: re-filled for the next request
+         static int next = 0;
+         auto& cell = cells[next++ % 4];
+         cell.rep().resize(0);
+         for (std::size_t i = 0; i < src.rep().size(); ++i) cell.push_back(src.rep().get(i));
+         Ctx* ctx = &c;
+         scrubs.push_back([&cell, ctx] {
+            const std::size_t n = cell.rep().size();
+            cell.rep().resize(0);
+            for (std::size_t i = 0; i <= n; ++i) cell.push_back(*ctx->types[(3 * i + 1) % ctx->types.size()]);
+         });
+         ++c.stats["by-value operands passed from re-used storage"];
+         return cell;
+      }
+      const ipr::Type& QT() { return pick(40, "Qualified_type", c.qtypes); }
+      const ipr::Decl& REDECL() { return pick(35, "Redeclaration", c.redecls); }
+      const ipr::Template& RETPL() { return pick(36, "Redeclared_template", c.retemplates); }
+      const ipr::Fundecl& FUNDECL() { return pick(37, "Fundecl", c.fundecls); }
+      const ipr::Enumerator& ENUMERATOR() { return pick(38, "Enumerator", c.enumerators); }
+      const ipr::Base_type& BASE() { return pick(39, "Base_type", c.bases); }
       const ipr::Var& VAR() { return pick(32, "Var", c.vars); }
       const ipr::Stmt& ST() { return pick(33, "Stmt", c.stmts); }
       const ipr::Literal& LIT() { return pick(34, "Literal", c.literals); }
@@ -225,7 +329,15 @@ namespace {
       util::word_view W()
       {
          auto g = gen(500 + static_cast<int>(args.size()) * 2 + (inst & 1));
-         auto w = c.word(g);
+         static char8_t buffers[8][32];
+         static int next = 0;
+         char8_t* b = buffers[next++ % 8];
+         const std::size_t n = 1 + static_cast<std::size_t>(g() % 12);
+         for (std::size_t i = 0; i < 32; ++i) b[i] = static_cast<char8_t>(0xa5 + i);     // neighbours: the view is not NUL-terminated
+         for (std::size_t i = 0; i < n; ++i) b[8 + i] = static_cast<char8_t>(g() & 0xff);
+         util::word_view w{b + 8, n};
+         scrubs.push_back([b] { for (std::size_t i = 0; i < 32; ++i) b[i] = static_cast<char8_t>(b[i] * 7 + 0x3b); });
+         ++c.stats["by-value operands passed from re-used storage"];
          args.push_back(c.ob.show(w));
          sorts.push_back("word_view");
          return w;
@@ -233,38 +345,71 @@ namespace {
 
       // enumerator-valued operands: instance i takes value (i + shift) of the domain
       template<class V>
-      V value(const char* sort, const std::vector<V>& dom)
+      V& value(const char* sort, const std::vector<V>& dom)
       {
          need = std::max<int>(need, static_cast<int>(dom.size()) + (dom.size() & 1));
-         V v = dom[(inst + 3 * nvals++) % dom.size()];
+         const std::size_t i = (inst + 3 * nvals++) % dom.size();
+         V v = dom[i];
+         V other = dom[(i + 1) % dom.size()];
          args.push_back(c.ob.show(v));
          sorts.push_back(sort);
-         return v;
+         return slot(v, other);
       }
-      ipr::Qualifiers Q() { return value<ipr::Qualifiers>("Qualifiers", {Qualifiers{1}, Qualifiers{2}, Qualifiers{3}, Qualifiers{4}, Qualifiers{5}, Qualifiers{6}, Qualifiers{7}}); }
-      ipr::Delimiter DELIM() { return value<ipr::Delimiter>("Delimiter", {Delimiter::Nothing, Delimiter::Paren, Delimiter::Brace, Delimiter::Bracket, Delimiter::Angle}); }
-      ipr::Binding_mode BM() { return value<ipr::Binding_mode>("Binding_mode", {Binding_mode::Copy, Binding_mode::Reference, Binding_mode::Move}); }
-      ipr::Phases PH()
+      ipr::Qualifiers& Q() { return value<ipr::Qualifiers>("Qualifiers", {Qualifiers{1}, Qualifiers{2}, Qualifiers{3}, Qualifiers{4}, Qualifiers{5}, Qualifiers{6}, Qualifiers{7}}); }
+      ipr::Delimiter& DELIM() { return value<ipr::Delimiter>("Delimiter", {Delimiter::Nothing, Delimiter::Paren, Delimiter::Brace, Delimiter::Bracket, Delimiter::Angle}); }
+      ipr::Binding_mode& BM() { return value<ipr::Binding_mode>("Binding_mode", {Binding_mode::Copy, Binding_mode::Reference, Binding_mode::Move}); }
+      ipr::Phases& PH()
       {
          return value<ipr::Phases>("Phases", {Phases::Reading, Phases::Lexing, Phases::Preprocessing, Phases::Parsing, Phases::Name_resolution,
             Phases::Typing, Phases::Evaluation, Phases::Instantiation, Phases::Code_generation, Phases::Linking, Phases::Loading,
             Phases::Execution, Phases::Unknown, Phases::Elaboration, Phases::All});
       }
-      ipr::Using_declaration::Designator::Mode DM()
+      ipr::Using_declaration::Designator::Mode& DM()
       {
          using M = ipr::Using_declaration::Designator::Mode;
          return value<M>("Designator::Mode", {M::Normal, M::Type, M::Expansion});
       }
-      ipr::Enum::Kind EK() { return value<ipr::Enum::Kind>("Enum::Kind", {ipr::Enum::Kind::Legacy, ipr::Enum::Kind::Scoped}); }
-      cf::Reference_flavor RF() { return value<cf::Reference_flavor>("Reference_flavor", {cf::Reference_flavor::Lvalue, cf::Reference_flavor::Rvalue}); }
-      ipr::Mapping_level LVL() { return value<ipr::Mapping_level>("Mapping_level", {Mapping_level{0}, Mapping_level{1}, Mapping_level{2}, Mapping_level{7}}); }
-      ipr::Category_code CCODE()
+      ipr::Enum::Kind& EK() { return value<ipr::Enum::Kind>("Enum::Kind", {ipr::Enum::Kind::Legacy, ipr::Enum::Kind::Scoped}); }
+      cf::Reference_flavor& RF() { return value<cf::Reference_flavor>("Reference_flavor", {cf::Reference_flavor::Lvalue, cf::Reference_flavor::Rvalue}); }
+      ipr::Mapping_level& LVL() { return value<ipr::Mapping_level>("Mapping_level", {Mapping_level{0}, Mapping_level{1}, Mapping_level{2}, Mapping_level{7}}); }
+      ipr::Category_code& CCODE()
       {
          std::vector<Category_code> dom;
          for (int i = 0; i <= static_cast<int>(Category_code::last_code_cat); ++i) dom.push_back(static_cast<Category_code>(i));
          return value<Category_code>("Category_code", dom);
       }
-      bool BOOL() { return value<bool>("bool", {false, true}); }
+      // positions and token data: distinct in every component, so that a stale component shows
+      ipr::Source_location& LOC()
+      {
+         auto g = gen(900 + nvals);
+         std::vector<ipr::Source_location> dom;
+         for (std::uint32_t i = 0; i < 3; ++i) {
+            ipr::Source_location l;
+            l.line = Line_number{static_cast<std::uint32_t>(1000 * (i + 1) + g() % 900)};
+            l.column = Column_number{static_cast<std::uint32_t>(100 * (i + 1) + g() % 90)};
+            l.file = File_index{static_cast<std::uint32_t>(10 * (i + 1) + g() % 9)};
+            dom.push_back(l);
+         }
+         return value<ipr::Source_location>("Source_location", dom);
+      }
+      // the caller's position variable moves on (a lexer's cursor) and is passed again: recorded as a further operand
+      ipr::Source_location& advance(ipr::Source_location& cursor_variable)
+      {
+         cursor_variable.line = Line_number{static_cast<std::uint32_t>(cursor_variable.line) + 1};
+         cursor_variable.column = Column_number{static_cast<std::uint32_t>(cursor_variable.column) + 7};
+         cursor_variable.file = File_index{static_cast<std::uint32_t>(cursor_variable.file) + 100};
+         args.push_back(c.ob.show(cursor_variable));
+         sorts.push_back("Source_location");
+         return cursor_variable;
+      }
+      ipr::TokenValue& TV()
+      {
+         return value<ipr::TokenValue>("TokenValue", {TokenValue{300}, TokenValue{301}, TokenValue{302}, TokenValue{303}, TokenValue{304}});
+      }
+      ipr::TokenCategory& TC()
+      {
+         return value<ipr::TokenCategory>("TokenCategory", {TokenCategory{11}, TokenCategory{12}, TokenCategory{13}, TokenCategory{14}});
+      }
 
       // an operand created for this call only (containers that the call mutates)
       template<class X>
@@ -303,6 +448,7 @@ namespace {
       template<class X>
       void done(const X& x)
       {
+         scrub();
          result = c.ob.show(x);
          if (repeat) {
             std::cout << "U " << key << ' ' << inst << ' ' << (result == first_result ? "same" : "fresh") << '\n';
@@ -327,8 +473,15 @@ namespace {
 
    void run_entry(Ctx& c, const Entry& e)
    {
+      // operand vectors already handed to a function of this name (whatever the overload / form): a unified factory answers such a
+      // request with the node it made then, which says nothing about the call under test
+      static std::set<std::string> requested;
+      std::string fname = e.key.substr(0, e.key.find('('));
+      if (auto p = fname.rfind("::"); p != std::string::npos) fname = fname.substr(p + 2);
       int need = 2 * c.rounds;
       for (int inst = 0; inst < need; ++inst) {
+         int never_requested = 0;                      // stale attempts whose operand vector no call before this instance had used
+         std::set<std::string> mine;
          for (int attempt = 0; ; ++attempt) {
             const std::size_t before = c.ob.count();
             Run r{c, e.key, inst, false};
@@ -340,12 +493,15 @@ namespace {
                e.body(r);
                std::cout.rdbuf(old);
                const bool stale = r.result.size() > 1 and r.result[0] == 'n' and std::stoul(r.result.substr(1)) < before;
-               if (stale) continue;
+               const std::string vec = fname + ' ' + Run::join(r.args);
+               mine.insert(vec);
+               if (stale) { if (requested.count(vec) == 0) ++never_requested; continue; }
                std::cout << sink.str();
-               c.made.push_back({e.key, inst, r.result, r.watermark, r.fresh_args});
+               if (not r.ephemeral) c.made.push_back({e.key, inst, r.result, r.watermark, r.fresh_args});
             }
             else {
-               std::cout << "# skipped " << e.key << ' ' << inst << " (every operand choice gave a node that existed before)\n";
+               std::cout << "# skipped " << e.key << ' ' << inst << " (every operand choice gave a node that existed before; " << never_requested
+                         << " of 12 operand vectors had never been requested)\n";
                break;
             }
             need = std::max(need, r.need);
@@ -354,6 +510,7 @@ namespace {
             e.body(again);
             break;
          }
+         requested.insert(mine.begin(), mine.end());
       }
    }
 }
@@ -406,6 +563,12 @@ void Ctx::build_pools()
    pool("Type", types, static_cast<const ipr::Type&>(L.get_pointer(L.get_pointer(*base[8]))));
    pool("Type", types, static_cast<const ipr::Type&>(L.get_auto()));
    pool("Type", types, static_cast<const ipr::Type&>(L.get_ptr_to_member(klass, *base[9])));
+   // types given to a factory may carry top-level cv-qualifiers (over built-in and class types that are not in the pool above)
+   {
+      const ipr::Type* mains[] = {base[0], base[1], base[2], &klass, base[4], base[3]};
+      const std::uintptr_t cv[] = {1, 2, 3, 1, 6, 5};
+      for (int i = 0; i < 6; ++i) pool("Qualified_type", qtypes, static_cast<const ipr::Type&>(L.get_qualified(Qualifiers{cv[i]}, *mains[i])));
+   }
    // a universe of further pairwise distinct compound types: EVERY typed operand (expression, declaration, block, ...) gets a
    // type of its own, different from every Type operand, so that "the type of operand i" is never also "the type of operand j"
    std::vector<const ipr::Type*> tu;
@@ -415,6 +578,8 @@ void Ctx::build_pools()
    for (int i = 0; i < 10; ++i) tu.push_back(&L.get_ptr_to_member(klass, L.get_pointer(*base[i])));
    for (int i = 0; i < 10; ++i) tu.push_back(&L.get_pointer(L.get_ptr_to_member(klass, L.get_pointer(*base[i]))));
    for (int i = 0; i < 10; ++i) tu.push_back(&L.get_reference(L.get_ptr_to_member(klass, L.get_pointer(*base[i]))));
+   for (int i = 0; i < 10; ++i) tu.push_back(&L.get_rvalue_reference(L.get_ptr_to_member(klass, L.get_pointer(*base[i]))));
+   for (int i = 0; i < 10; ++i) tu.push_back(&L.get_pointer(L.get_pointer(L.get_pointer(L.get_pointer(*base[i])))));
    std::size_t next_tu = 0;
    auto fresh_type = [&]() -> const ipr::Type& { return *tu.at(next_tu++); };
    // strings, identifiers, names
@@ -531,6 +696,34 @@ void Ctx::build_pools()
                           : &L.get_transfer(*linkages[i], *conventions[i]));
       std::cout << "P Transfer " << ob.show(*transfers.back()) << '\n';
    }
+   // declarations in their other forms: REDECLARATIONS (the second declaration of a name with the same type in one scope; each
+   // (name, type) pair is used by one declaration kind), functions, enumerators, base-class subobjects
+   {
+      impl::Region* rr = global->make_subregion();
+      for (int i = 0; i < 2; ++i) {
+         auto& t = fresh_type();
+         (void) rr->declare_var(*idents[4 + i], t);
+         pool("Redeclaration", redecls, static_cast<const ipr::Decl&>(*rr->declare_var(*idents[4 + i], t)));
+      }
+      for (int i = 0; i < 2; ++i) {
+         (void) rr->declare_fun(*names[i], *functions[i]);
+         pool("Redeclaration", redecls, static_cast<const ipr::Decl&>(*rr->declare_fun(*names[i], *functions[i])));
+      }
+      for (int i = 0; i < 2; ++i) {
+         auto& t = fresh_type();
+         (void) rr->declare_type(*idents[6 + i], t);
+         pool("Redeclaration", redecls, static_cast<const ipr::Decl&>(*rr->declare_type(*idents[6 + i], t)));
+      }
+      for (int i = 0; i < 4; ++i) {
+         (void) rr->declare_primary_template(*idents[i], *foralls[(i + 1) % 4]);
+         pool("Redeclared_template", retemplates, static_cast<const ipr::Template&>(*rr->declare_primary_template(*idents[i], *foralls[(i + 1) % 4])));
+      }
+      for (int i = 0; i < 4; ++i) pool("Fundecl", fundecls, static_cast<const ipr::Fundecl&>(*declreg->declare_fun(*names[(i + 2) % 5], *functions[i])));
+      impl::Enum* en = L.make_enum(*global, ipr::Enum::Kind::Legacy);
+      for (int i = 0; i < 4; ++i) pool("Enumerator", enumerators, static_cast<const ipr::Enumerator&>(*en->add_member(*names[i])));
+      impl::Class* kl = L.make_class(*global);
+      for (int i = 0; i < 4; ++i) pool("Base_type", bases, static_cast<const ipr::Base_type&>(*kl->declare_base(fresh_type())));
+   }
    for (int i = 0; i < 4; ++i) pool("Substitution", substitutions, static_cast<const ipr::Substitution&>(*L.make_elementary_substitution(*parms[i], *exprs[i])));
    // observe every pool element once (operands of `via` hops)
    const std::size_t n = ob.count();
@@ -549,6 +742,7 @@ namespace {
    void done_value(Run& r, const void* identity, const char* kind, std::vector<std::pair<std::string, std::string>> fields)
    {
       static std::map<const void*, int> ids;
+      r.scrub();
       auto it = ids.emplace(identity, static_cast<int>(ids.size())).first;
       r.result = "v" + std::to_string(it->second);
       if (r.repeat) {
@@ -606,6 +800,9 @@ namespace {
 #define BIN_OPT(NAME) \
    ENTRY("expr_factory::" #NAME "(Expr,Expr,Optional<Type>)", auto& a = r.E(); auto& b = r.E(); auto& t = r.T(); r.done(*L.NAME(a, b, t));) \
    ENTRY("expr_factory::" #NAME "(Expr,Expr,Optional<Type>)/2", auto& a = r.E(); auto& b = r.E(); r.done(*L.NAME(a, b));)
+#define UN_ET_Q(NAME) ENTRY("expr_factory::" #NAME "(Expr,Type)#qualified-type", auto& e = r.E(); auto& t = r.QT(); r.done(*L.NAME(e, t));)
+#define CAST_TE_Q(NAME) ENTRY("expr_factory::" #NAME "(Type,Expr)#qualified-type", auto& t = r.QT(); auto& e = r.E(); r.done(*L.NAME(t, e));)
+#define CONV_ETT_Q(NAME) ENTRY("expr_factory::" #NAME "(Expr,Type,Type)#qualified-type", auto& e = r.E(); auto& t = r.T(); auto& u = r.QT(); r.done(*L.NAME(e, t, u));)
 #define CAST_TE(NAME) ENTRY("expr_factory::" #NAME "(Type,Expr)", auto& t = r.T(); auto& e = r.E(); r.done(*L.NAME(t, e));)
 #define CONV_ETT(NAME) ENTRY("expr_factory::" #NAME "(Expr,Type,Type)", auto& e = r.E(); auto& t = r.T(); auto& u = r.T(); r.done(*L.NAME(e, t, u));)
 
@@ -622,6 +819,7 @@ static void register_expr_entries()
    ENTRY("name_factory::get_ctor_name(Type)", auto& t = r.T(); r.done(L.get_ctor_name(t));)
    ENTRY("name_factory::get_dtor_name(Type)", auto& t = r.T(); r.done(L.get_dtor_name(t));)
    ENTRY("name_factory::get_guide_name(Template)", auto& t = r.TPL(); r.done(L.get_guide_name(t));)
+   ENTRY("name_factory::get_guide_name(Template)#redeclaration", auto& t = r.RETPL(); r.done(L.get_guide_name(t));)
    ENTRY("name_factory::get_logogram(String)", auto& s = r.S(); done_logogram(r, L.get_logogram(s));)
    // -- expr_factory: linkage, symbols, nullary
    ENTRY("expr_factory::get_linkage(word_view)", auto w = r.W(); done_linkage(r, L.get_linkage(w));)
@@ -642,14 +840,52 @@ static void register_expr_entries()
    UN_OPT(make_expansion) UN_OPT(make_noexcept)
    UN_E(make_array_delete) UN_E(make_delete) UN_E(make_restriction)
    UN_ET(make_demotion) UN_ET(make_materialization) UN_ET(make_promotion) UN_ET(make_read)
+   // the type GIVEN is reported exactly, also a type with top-level cv-qualifiers (no adjustment by the factory)
+   UN_ET_Q(make_demotion) UN_ET_Q(make_materialization) UN_ET_Q(make_promotion) UN_ET_Q(make_read)
    ENTRY("expr_factory::make_expr_list()", r.done(*L.make_expr_list());)
    ENTRY("expr_factory::make_id_expr(Name,Optional<Type>)", auto& n = r.N(); auto& t = r.T(); r.done(*L.make_id_expr(n, t));)
    ENTRY("expr_factory::make_id_expr(Name,Optional<Type>)/1", auto& n = r.N(); r.done(*L.make_id_expr(n));)
    ENTRY("expr_factory::make_id_expr(Decl)", auto& d = r.D(); r.done(*L.make_id_expr(d));)
+   // the declaration GIVEN is the resolution, whatever its form: a redeclaration (not its master), a function, a template,
+   // a parameter, an enumerator, a base-class subobject
+#define ID_OF(FORM, PICK) ENTRY("expr_factory::make_id_expr(Decl)#" FORM, auto& d = r.PICK(); r.done(*L.make_id_expr(d));)
+   ID_OF("redeclaration", REDECL) ID_OF("function", FUNDECL) ID_OF("template", TPL) ID_OF("parameter", PARM)
+   ID_OF("enumerator", ENUMERATOR) ID_OF("base", BASE)
+   // the operand dies and ANOTHER declaration (other name, other type) is constructed in the very same storage while the Lexicon
+   // lives on: the id-expression of the newcomer reports the newcomer (everything is read while it is alive)
+   ENTRY("expr_factory::make_id_expr(Decl)#recycled-storage", alignas(impl::Parameter) static unsigned char storage[sizeof(impl::Parameter)];
+         auto& n1 = r.N(); auto& t1 = r.T(); auto& n2 = r.N(); auto& t2 = r.T();
+         auto* p = new (storage) impl::Parameter(n1, t1, Decl_position{0});
+         const ipr::Id_expr& x1 = *L.make_id_expr(*p);
+         const bool first_ok = &x1.type() == &t1 and &x1.name() == &n1 and x1.resolution().is_valid() and &x1.resolution().get() == p;
+         r.c.stats[first_ok ? "recycled storage: first occupant reported" : "recycled storage: first occupant MISREPORTED"]++;
+         r.c.ob.forget(*p); p->~Parameter();
+         p = new (storage) impl::Parameter(n2, t2, Decl_position{1});
+         r.extra(static_cast<const ipr::Parameter&>(*p), "Parameter"); r.ephemeral = true;
+         r.done(*L.make_id_expr(*p));
+         r.c.ob.forget(*p); p->~Parameter();)
+   // the same with a declaration OWNED BY A TRANSLATION UNIT that is destroyed while the Lexicon serves the next unit, whose
+   // declaration lands at the address of the dead one (recycling allocator above)
+   ENTRY("expr_factory::make_id_expr(Decl)#recycled-unit", auto& n1 = r.N(); auto& t1 = r.T(); auto& n2 = r.N(); auto& t2 = r.T();
+         const std::size_t mark = r.c.ob.count();
+         recycler::Scope recycling;
+         auto* u = new impl::Translation_unit(L);
+         const ipr::Var* v = u->global_region()->declare_var(n1, t1);
+         const void* where = v;
+         const ipr::Id_expr& x1 = *L.make_id_expr(*v);
+         const bool first_ok = &x1.type() == &t1 and &x1.name() == &n1 and x1.resolution().is_valid() and &x1.resolution().get() == v;
+         r.c.stats[first_ok ? "recycled storage: first occupant reported" : "recycled storage: first occupant MISREPORTED"]++;
+         delete u;
+         u = new impl::Translation_unit(L);
+         v = u->global_region()->declare_var(n2, t2);
+         r.c.stats[v == where ? "recycled unit: the next unit's declaration lies at the dead one's address" : "recycled unit: address NOT reused"]++;
+         r.extra(*v, "Var"); r.ephemeral = true;
+         r.done(*L.make_id_expr(*v));
+         r.c.ob.forget_since(mark); delete u;)
    ENTRY("expr_factory::make_label(Identifier,Optional<Type>)", auto& i = r.I(); auto& t = r.T(); r.done(*L.make_label(i, t));)
    ENTRY("expr_factory::make_label(Identifier,Optional<Type>)/1", auto& i = r.I(); r.done(*L.make_label(i));)
-   ENTRY("expr_factory::make_enclosure(Delimiter,Expr,Optional<Type>)", auto d = r.DELIM(); auto& e = r.E(); auto& t = r.T(); r.done(*L.make_enclosure(d, e, t));)
-   ENTRY("expr_factory::make_enclosure(Delimiter,Expr,Optional<Type>)/2", auto d = r.DELIM(); auto& e = r.E(); r.done(*L.make_enclosure(d, e));)
+   ENTRY("expr_factory::make_enclosure(Delimiter,Expr,Optional<Type>)", auto& d = r.DELIM(); auto& e = r.E(); auto& t = r.T(); r.done(*L.make_enclosure(d, e, t));)
+   ENTRY("expr_factory::make_enclosure(Delimiter,Expr,Optional<Type>)/2", auto& d = r.DELIM(); auto& e = r.E(); r.done(*L.make_enclosure(d, e));)
    ENTRY("expr_factory::make_construction(Type,Enclosure)", auto& t = r.T(); auto& e = r.ENC(); r.done(*L.make_construction(t, e));)
    // -- binary
    ENTRY("expr_factory::make_rewrite(Expr,Expr)", auto& a = r.E(); auto& b = r.E(); r.done(*L.make_rewrite(a, b));)
@@ -661,14 +897,16 @@ static void register_expr_entries()
    BIN_OPT(make_modulo_assign) BIN_OPT(make_mul) BIN_OPT(make_mul_assign) BIN_OPT(make_not_equal) BIN_OPT(make_or) BIN_OPT(make_plus)
    BIN_OPT(make_plus_assign) BIN_OPT(make_scope_ref) BIN_OPT(make_rshift) BIN_OPT(make_rshift_assign)
    CAST_TE(make_cast) CAST_TE(make_const_cast) CAST_TE(make_dynamic_cast) CAST_TE(make_reinterpret_cast) CAST_TE(make_static_cast)
+   CAST_TE_Q(make_cast) CAST_TE_Q(make_const_cast) CAST_TE_Q(make_dynamic_cast) CAST_TE_Q(make_reinterpret_cast) CAST_TE_Q(make_static_cast)
    CONV_ETT(make_coercion) CONV_ETT(make_narrow) CONV_ETT(make_pretend) CONV_ETT(make_widen)
+   CONV_ETT_Q(make_coercion) CONV_ETT_Q(make_narrow) CONV_ETT_Q(make_pretend) CONV_ETT_Q(make_widen)
    ENTRY("expr_factory::make_call(Expr,Expr_list,Optional<Type>)", auto& f = r.E(); auto& a = r.XL(); auto& t = r.T(); r.done(*L.make_call(f, a, t));)
    ENTRY("expr_factory::make_call(Expr,Expr_list,Optional<Type>)/2", auto& f = r.E(); auto& a = r.XL(); r.done(*L.make_call(f, a));)
-   ENTRY("expr_factory::make_qualification(Expr,Qualifiers,Type)", auto& e = r.E(); auto q = r.Q(); auto& t = r.T(); r.done(*L.make_qualification(e, q, t));)
+   ENTRY("expr_factory::make_qualification(Expr,Qualifiers,Type)", auto& e = r.E(); auto& q = r.Q(); auto& t = r.T(); r.done(*L.make_qualification(e, q, t));)
    ENTRY("expr_factory::make_template_id(Expr,Expr_list)", auto& e = r.E(); auto& a = r.XL(); r.done(*L.make_template_id(e, a));)
-   ENTRY("expr_factory::make_binary_fold(Category_code,Expr,Expr,Optional<Type>)", auto c = r.CCODE(); auto& a = r.E(); auto& b = r.E(); auto& t = r.T();
+   ENTRY("expr_factory::make_binary_fold(Category_code,Expr,Expr,Optional<Type>)", auto& c = r.CCODE(); auto& a = r.E(); auto& b = r.E(); auto& t = r.T();
          r.done(*L.make_binary_fold(c, a, b, t));)
-   ENTRY("expr_factory::make_binary_fold(Category_code,Expr,Expr,Optional<Type>)/3", auto c = r.CCODE(); auto& a = r.E(); auto& b = r.E();
+   ENTRY("expr_factory::make_binary_fold(Category_code,Expr,Expr,Optional<Type>)/3", auto& c = r.CCODE(); auto& a = r.E(); auto& b = r.E();
          r.done(*L.make_binary_fold(c, a, b));)
    ENTRY("expr_factory::make_where(Region)", auto& p = r.R(); r.done(*L.make_where(p));)
    ENTRY("expr_factory::make_where(Expr,Expr)", auto& a = r.E(); auto& b = r.E(); r.done(*L.make_where(a, b));)
@@ -682,9 +920,9 @@ static void register_expr_entries()
          r.done(*L.make_conditional(a, b, c, t));)
    ENTRY("expr_factory::make_conditional(Expr,Expr,Expr,Optional<Type>)/3", auto& a = r.E(); auto& b = r.E(); auto& c = r.E();
          r.done(*L.make_conditional(a, b, c));)
-   ENTRY("expr_factory::make_mapping(Region,Mapping_level)", auto& p = r.R(); auto l = r.LVL(); r.done(*L.expr_factory::make_mapping(p, l));)
-   ENTRY("expr_factory::make_lambda(Region,Mapping_level)", auto& p = r.R(); auto l = r.LVL(); r.done(*L.make_lambda(p, l));)
-   ENTRY("expr_factory::make_requires(Region,Mapping_level)", auto& p = r.R(); auto l = r.LVL(); r.done(*L.make_requires(p, l));)
+   ENTRY("expr_factory::make_mapping(Region,Mapping_level)", auto& p = r.R(); auto& l = r.LVL(); r.done(*L.expr_factory::make_mapping(p, l));)
+   ENTRY("expr_factory::make_lambda(Region,Mapping_level)", auto& p = r.R(); auto& l = r.LVL(); r.done(*L.make_lambda(p, l));)
+   ENTRY("expr_factory::make_requires(Region,Mapping_level)", auto& p = r.R(); auto& l = r.LVL(); r.done(*L.make_requires(p, l));)
    ENTRY("expr_factory::make_elementary_substitution(Parameter,Expr)", auto& p = r.PARM(); auto& e = r.E(); r.done(*L.make_elementary_substitution(p, e));)
    ENTRY("expr_factory::make_general_substitution()", r.done(*L.make_general_substitution());)
    ENTRY("expr_factory::make_asm_expr(String)", auto& s = r.S(); r.done(*L.make_asm_expr(s));)
@@ -703,8 +941,8 @@ static void register_type_entries()
    ENTRY("type_factory::get_as_type(Expr,Transfer)", auto& e = r.E(); auto& x = r.XF(); r.done(L.get_as_type(e, x));)
    ENTRY("type_factory::get_as_type(Expr,Transfer)#natural", auto& e = r.E(); auto& x = natural(r); r.done(L.get_as_type(e, x));)
    ENTRY("type_factory::get_array(Type,Expr)", auto& t = r.T(); auto& e = r.E(); r.done(L.get_array(t, e));)
-   ENTRY("type_factory::get_qualified(Qualifiers,Type)", auto q = r.Q(); auto& t = r.T(); r.done(L.get_qualified(q, t));)
-   ENTRY("type_factory::get_qualified(Qualifiers,Type)#merge", auto q = r.Q(); auto& t = r.c.types.at(r.gen(77)() % r.c.types.size());
+   ENTRY("type_factory::get_qualified(Qualifiers,Type)", auto& q = r.Q(); auto& t = r.T(); r.done(L.get_qualified(q, t));)
+   ENTRY("type_factory::get_qualified(Qualifiers,Type)#merge", auto& q = r.Q(); auto& t = r.c.types.at(r.gen(77)() % r.c.types.size());
          const auto qv = static_cast<std::uintptr_t>(q);           // the operand's own qualifiers never contain the new ones
          auto& inner = L.get_qualified(Qualifiers{qv == 7 ? std::uintptr_t{2} : (((qv << 1) | (qv >> 2)) & 7)}, *t);
          r.extra(static_cast<const ipr::Type&>(inner), "Type");
@@ -741,20 +979,36 @@ static void register_type_entries()
    ENTRY("type_factory::get_sum(Warehouse<Type>)", auto& w = r.WH(); r.done(L.get_sum(w));)
    ENTRY("type_factory::get_forall(Product,Type)", auto& p = r.P(); auto& t = r.T(); r.done(L.get_forall(p, t));)
    ENTRY("type_factory::get_auto()", r.done(L.get_auto());)
-   ENTRY("type_factory::make_enum(Region,Enum::Kind)", auto& p = r.R(); auto k = r.EK(); r.done(*L.make_enum(p, k));)
+   ENTRY("type_factory::make_enum(Region,Enum::Kind)", auto& p = r.R(); auto& k = r.EK(); r.done(*L.make_enum(p, k));)
    ENTRY("type_factory::make_class(Region)", auto& p = r.R(); r.done(*L.make_class(p));)
    ENTRY("type_factory::make_union(Region)", auto& p = r.R(); r.done(*L.make_union(p));)
    ENTRY("type_factory::make_namespace(Region)", auto& p = r.R(); r.done(*L.make_namespace(p));)
    ENTRY("type_factory::make_closure(Region)", auto& p = r.R(); r.done(*L.make_closure(p));)
+   // the closure reached as the type of a lambda and as the type of a variable: still a class type
+   ENTRY("expr_factory::make_lambda(Region,Mapping_level)#closure-type", auto& p = r.R(); auto& l = r.LVL(); auto& k = r.fresh(*L.make_closure(p), "Closure");
+         auto* m = L.make_lambda(p, l); m->typing = &k; r.done(static_cast<const ipr::Lambda&>(*m).type());)
+   ENTRY("Region::declare_var(Name,Type)#closure-typed", auto& p = r.R(); auto& k = r.fresh(*L.make_closure(p), "Closure");
+         auto& reg = r.fresh(*r.c.unit.global_region()->make_subregion(), "Region"); auto& n = r.N();
+         const ipr::Var& v = *reg.declare_var(n, k); r.done(v.type());)
    // -- dir_factory
    ENTRY("dir_factory::make_specifiers_spread()", r.done(*L.make_specifiers_spread());)
    ENTRY("dir_factory::make_structured_binding()", r.done(*L.make_structured_binding());)
-   ENTRY("dir_factory::make_using_declaration(Scope_ref,Using_declaration::Designator::Mode)", auto& s = r.SR(); auto m = r.DM();
+   ENTRY("dir_factory::make_using_declaration(Scope_ref,Using_declaration::Designator::Mode)", auto& s = r.SR(); auto& m = r.DM();
          r.done(*L.make_using_declaration(s, m));)
    ENTRY("dir_factory::make_using_declaration()", r.done(*L.make_using_declaration());)
    ENTRY("dir_factory::make_using_directive(Scope,Type)", auto& s = r.SC(); auto& t = r.T(); r.done(*L.make_using_directive(s, t));)
-   ENTRY("dir_factory::make_phased_evaluation(Expr,Phases)", auto& e = r.E(); auto p = r.PH(); r.done(*L.make_phased_evaluation(e, p));)
+   ENTRY("dir_factory::make_phased_evaluation(Expr,Phases)", auto& e = r.E(); auto& p = r.PH(); r.done(*L.make_phased_evaluation(e, p));)
    ENTRY("dir_factory::make_pragma()", r.done(*L.make_pragma());)
+   // tokens, built the way a client can (Lexicon::make_token is declared but has no definition): in a container of the client, in
+   // the kind of farm Lexicon::tokens is, and inside a pragma -- the position comes from ONE variable of the caller that moves on
+   ENTRY("Token::Token(String,Source_location,TokenValue,TokenCategory)", auto& s = r.S(); auto& loc = r.LOC(); auto& v = r.TV(); auto& k = r.TC();
+         r.c.tokens.emplace_back(s, loc, v, k); r.done(static_cast<const ipr::Token&>(r.c.tokens.back()));)
+   ENTRY("stable_farm<Token>::make(String,Source_location,TokenValue,TokenCategory)", auto& s = r.S(); auto& loc = r.LOC(); auto& v = r.TV(); auto& k = r.TC();
+         r.done(static_cast<const ipr::Token&>(*r.c.token_farm.make(s, loc, v, k)));)
+   ENTRY("dir_factory::make_pragma()#tokens", auto* p = L.make_pragma(); auto& s1 = r.S(); auto& loc = r.LOC(); auto& v1 = r.TV(); auto& k1 = r.TC();
+         p->tokens.push_back(s1, loc, v1, k1);
+         auto& s2 = r.S(); auto& loc2 = r.advance(loc); auto& v2 = r.TV(); auto& k2 = r.TC();
+         p->tokens.push_back(s2, loc2, v2, k2); r.done(*p);)
    // -- stmt_factory
    ENTRY("stmt_factory::make_break()", r.done(*L.make_break());)
    ENTRY("stmt_factory::make_continue()", r.done(*L.make_continue());)
@@ -779,7 +1033,7 @@ static void register_type_entries()
    ENTRY("Lexicon::make_asm(String)", auto& s = r.S(); r.done(*L.make_asm(s));)
    ENTRY("Lexicon::make_static_assert(Expr,Optional<String>)", auto& e = r.E(); auto& s = r.S(); r.done(*L.make_static_assert(e, s));)
    ENTRY("Lexicon::make_static_assert(Expr,Optional<String>)#nomessage", auto& e = r.E(); r.done(*L.make_static_assert(e, { }));)
-   ENTRY("Lexicon::make_mapping(Region,Mapping_level)", auto& p = r.R(); auto l = r.LVL(); r.done(*L.make_mapping(p, l));)
+   ENTRY("Lexicon::make_mapping(Region,Mapping_level)", auto& p = r.R(); auto& l = r.LVL(); r.done(*L.make_mapping(p, l));)
    ENTRY("Lexicon::make_mapping(Region,Mapping_level)/1", auto& p = r.R(); r.done(*L.make_mapping(p));)
    // -- nodes whose parts are set after construction: the same factories, observed again with every part supplied
    ENTRY("stmt_factory::make_for()#linked", auto* f = L.make_for(); auto& i = r.E(); auto& c = r.E(); auto& n = r.E(); auto& b = r.ST();
@@ -793,9 +1047,9 @@ static void register_type_entries()
    ENTRY("stmt_factory::make_continue()#linked", auto* b = L.make_continue(); auto& s = r.ST(); b->stmt = &s; r.done(*b);)
    ENTRY("expr_factory::make_instantiation(Expr,Substitution)#linked", auto& e = r.E(); auto& s = r.SUB(); auto& i = r.E();
          auto* x = L.make_instantiation(e, s); x->result = &i; r.done(*x);)
-   ENTRY("Lexicon::make_mapping(Region,Mapping_level)#linked", auto& p = r.R(); auto l = r.LVL(); auto& b = r.E(); auto& t = r.T();
+   ENTRY("Lexicon::make_mapping(Region,Mapping_level)#linked", auto& p = r.R(); auto& l = r.LVL(); auto& b = r.E(); auto& t = r.T();
          auto* m = L.make_mapping(p, l); m->body = &b; m->typing = &t; r.done(*m);)
-   ENTRY("expr_factory::make_lambda(Region,Mapping_level)#linked", auto& p = r.R(); auto l = r.LVL(); auto& b = r.E(); auto& t = r.T(); auto& q = r.E(); auto& x = r.E();
+   ENTRY("expr_factory::make_lambda(Region,Mapping_level)#linked", auto& p = r.R(); auto& l = r.LVL(); auto& b = r.E(); auto& t = r.T(); auto& q = r.E(); auto& x = r.E();
          auto& k = r.fresh(*L.make_closure(p), "Closure"); auto* m = L.make_lambda(p, l);
          m->body = &b; m->value_type = &t; m->decl_constraint = &q; m->eh = &x; m->typing = &k; m->lam_spec = Lambda_specifiers::Constexpr; r.done(*m);)
    ENTRY("Block::new_handler(Name,Type)#body-typed", auto& reg = r.R(); auto& b = r.fresh(*L.make_block(reg), "Block"); auto& n = r.N(); auto& t = r.T(); auto& u = r.T();
@@ -811,6 +1065,17 @@ static void register_type_entries()
 #define UDT_DECL(FN, SORT2, PICK2) \
    ENTRY("Udt::" #FN "(Name," SORT2 ")", auto& preg = r.R(); auto& u = r.fresh(*L.make_class(preg), "Class"); auto& n = r.N(); auto& t = r.PICK2(); \
          r.done(*u.FN(n, t));)
+
+namespace {
+   // one full read of the type of an expression list: every component, by index and by traversal (what a client does when it
+   // compares the list with a parameter list); a component that cannot be read yet raises std::logic_error
+   void read_list_type(const ipr::Expr_list& xl)
+   {
+      const ipr::Product& p = static_cast<const ipr::Product&>(*ipr::util::view<ipr::Product>(xl.type()));
+      for (std::size_t i = 0; i < p.size(); ++i) { try { (void) &p[i]; } catch (const std::logic_error&) { } }
+      try { for (auto& t : p.elements()) (void) &t; } catch (const std::logic_error&) { }
+   }
+}
 
 static void register_container_entries()
 {
@@ -834,9 +1099,9 @@ static void register_container_entries()
    UDT_DECL(declare_secondary_template, "Forall", FA)
    ENTRY("Class::declare_base(Type)", auto& preg = r.R(); auto& k = r.fresh(*L.make_class(preg), "Class"); auto& t = r.T(); r.done(*k.declare_base(t));)
    ENTRY("Enum::add_member(Name)", auto& preg = r.R(); auto& e = r.fresh(*L.make_enum(preg, ipr::Enum::Kind::Scoped), "Enum"); auto& n = r.N(); r.done(*e.add_member(n));)
-   ENTRY("Parameter_list::add_member(Name,Type)", auto& reg = r.R(); auto l = r.LVL(); auto& m = r.fresh(*L.make_mapping(reg, l), "Mapping");
+   ENTRY("Parameter_list::add_member(Name,Type)", auto& reg = r.R(); auto& l = r.LVL(); auto& m = r.fresh(*L.make_mapping(reg, l), "Mapping");
          r.extra(static_cast<const ipr::Parameter_list&>(m.inputs), "Parameter_list"); auto& n = r.N(); auto& t = r.T(); r.done(*m.inputs.add_member(n, t));)
-   ENTRY("Mapping::param(Name,Type)", auto& reg = r.R(); auto l = r.LVL(); auto& m = r.fresh(*L.make_mapping(reg, l), "Mapping");
+   ENTRY("Mapping::param(Name,Type)", auto& reg = r.R(); auto& l = r.LVL(); auto& m = r.fresh(*L.make_mapping(reg, l), "Mapping");
          auto& n = r.N(); auto& t = r.T(); r.done(*m.param(n, t));)
    ENTRY("Block::new_handler(Name,Type)", auto& reg = r.R(); auto& b = r.fresh(*L.make_block(reg), "Block"); auto& n = r.N(); auto& t = r.T();
          r.done(*b.new_handler(n, t));)
@@ -845,6 +1110,18 @@ static void register_container_entries()
    ENTRY("handler_block::add_stmt(Expr)", auto& reg = r.R(); auto& b = *L.make_block(reg); auto& h = r.fresh(*b.new_handler(*r.c.names[0], *r.c.types[0]), "Handler");
          auto& e = r.E(); h.body().add_stmt(e); r.done(static_cast<const ipr::Handler&>(h).body());)
    ENTRY("Expr_list::push_back(Expr)", auto& xl = r.fresh(*L.make_expr_list(), "Expr_list"); auto& e = r.E(); xl.push_back(&e);
+         r.done(static_cast<const ipr::Expr_list&>(xl));)
+   // members whose type is assigned / changed / linked AFTER they were added and after the type of the list was read once:
+   // the components of the list's type are the types the members have NOW
+   ENTRY("Expr_list::push_back(Expr)#late-typed", auto& xl = r.fresh(*L.make_expr_list(), "Expr_list"); auto& n = r.N();
+         auto& x = r.fresh(*L.make_id_expr(n), "Id_expr"); xl.push_back(&x); read_list_type(xl);
+         auto& t = r.T(); x.typing = &t; r.done(static_cast<const ipr::Expr_list&>(xl));)
+   ENTRY("Expr_list::push_back(Expr)#retyped", auto& xl = r.fresh(*L.make_expr_list(), "Expr_list"); auto& n = r.N(); auto& t0 = r.T();
+         auto& x = r.fresh(*L.make_id_expr(n, t0), "Id_expr"); xl.push_back(&x); read_list_type(xl);
+         auto& t = r.T(); x.typing = &t; r.done(static_cast<const ipr::Expr_list&>(xl));)
+   ENTRY("Expr_list::push_back(Expr)#late-linked", auto& xl = r.fresh(*L.make_expr_list(), "Expr_list");
+         auto& w = r.fresh(*L.make_while(), "While"); xl.push_back(&w); read_list_type(xl);
+         auto& c = r.E(); auto& b = r.E(); w.control = &c; w.stmt = &b;
          r.done(static_cast<const ipr::Expr_list&>(xl));)
    ENTRY("Module::make_unit()", r.args.push_back(r.c.ob.show(static_cast<const ipr::Module&>(r.c.module))); r.sorts.push_back("Module");
          r.done(static_cast<const ipr::Module_unit&>(*r.c.module.make_unit()));)
@@ -857,10 +1134,14 @@ static void register_container_entries()
    ENTRY("attr_factory::make_factored_attribute(Token,Sequence<Attribute>)", auto& t = r.TOK(); auto& s = r.ATTS(); r.done(r.c.attrs.make_factored_attribute(t, s));)
    ENTRY("attr_factory::make_elaborated_attribute(Expr)", auto& e = r.E(); r.done(r.c.attrs.make_elaborated_attribute(e));)
    // -- capture_spec_factory
-   ENTRY("capture_spec_factory::default_capture(Binding_mode)", auto m = r.BM(); r.done(r.c.caps.default_capture(m));)
-   ENTRY("capture_spec_factory::implicit_object_capture(Binding_mode)", auto m = r.BM(); r.done(r.c.caps.implicit_object_capture(m));)
-   ENTRY("capture_spec_factory::enclosing_local_capture(Decl,Binding_mode)", auto& d = r.VAR(); auto m = r.BM(); r.done(r.c.caps.enclosing_local_capture(d, m));)
-   ENTRY("capture_spec_factory::binding_capture(Identifier,Expr,Binding_mode)", auto& i = r.I(); auto& e = r.E(); auto m = r.BM();
+   ENTRY("capture_spec_factory::default_capture(Binding_mode)", auto& m = r.BM(); r.done(r.c.caps.default_capture(m));)
+   ENTRY("capture_spec_factory::implicit_object_capture(Binding_mode)", auto& m = r.BM(); r.done(r.c.caps.implicit_object_capture(m));)
+   ENTRY("capture_spec_factory::enclosing_local_capture(Decl,Binding_mode)", auto& d = r.VAR(); auto& m = r.BM(); r.done(r.c.caps.enclosing_local_capture(d, m));)
+   ENTRY("capture_spec_factory::enclosing_local_capture(Decl,Binding_mode)#redeclaration", auto& d = r.REDECL(); auto& m = r.BM();
+         r.done(r.c.caps.enclosing_local_capture(d, m));)
+   ENTRY("capture_spec_factory::enclosing_local_capture(Decl,Binding_mode)#parameter", auto& d = r.PARM(); auto& m = r.BM();
+         r.done(r.c.caps.enclosing_local_capture(d, m));)
+   ENTRY("capture_spec_factory::binding_capture(Identifier,Expr,Binding_mode)", auto& i = r.I(); auto& e = r.E(); auto& m = r.BM();
          r.done(r.c.caps.binding_capture(i, e, m));)
    ENTRY("capture_spec_factory::expansion_capture(Capture_specification::Named)", auto& n = r.NAMED(); r.done(r.c.caps.expansion_capture(n));)
    // -- form_factory (through a Region, which is one)
@@ -874,16 +1155,16 @@ static void register_container_entries()
    FORM("make_type_requirement(Expr,Name)", auto& e = r.E(); auto& n = r.N(); r.done(*F.make_type_requirement(e, n));)
    FORM("make_compound_requirement(Expr)", auto& e = r.E(); r.done(*F.make_compound_requirement(e));)
    FORM("make_nested_requirement(Expr)", auto& e = r.E(); r.done(*F.make_nested_requirement(e));)
-   FORM("make_pointer_indirector(Qualifiers)", auto q = r.Q(); r.done(*F.make_pointer_indirector(q));)
-   FORM("make_reference_indirector(Reference_flavor)", auto f = r.RF(); r.done(*F.make_reference_indirector(f));)
-   FORM("make_member_indirector(Expr,Qualifiers)", auto& e = r.E(); auto q = r.Q(); r.done(*F.make_member_indirector(e, q));)
+   FORM("make_pointer_indirector(Qualifiers)", auto& q = r.Q(); r.done(*F.make_pointer_indirector(q));)
+   FORM("make_reference_indirector(Reference_flavor)", auto& f = r.RF(); r.done(*F.make_reference_indirector(f));)
+   FORM("make_member_indirector(Expr,Qualifiers)", auto& e = r.E(); auto& q = r.Q(); r.done(*F.make_member_indirector(e, q));)
    FORM("make_unqualified_id_species()", r.done(*F.make_unqualified_id_species());)
    FORM("make_unqualified_id_species(Name)", auto& n = r.N(); r.done(*F.make_unqualified_id_species(n));)
    FORM("make_pack_species()", r.done(*F.make_pack_species());)
    FORM("make_pack_species(Identifier)", auto& i = r.I(); r.done(*F.make_pack_species(i));)
    FORM("make_qualified_id_species(Expr,Name)", auto& e = r.E(); auto& n = r.N(); r.done(*F.make_qualified_id_species(e, n));)
    FORM("make_parenthesized_species()", r.done(*F.make_parenthesized_species());)
-   FORM("make_function_morphism(Region,Mapping_level)", auto& p = r.R(); auto l = r.LVL(); r.done(*F.make_function_morphism(p, l));)
+   FORM("make_function_morphism(Region,Mapping_level)", auto& p = r.R(); auto& l = r.LVL(); r.done(*F.make_function_morphism(p, l));)
    FORM("make_array_morphism()", r.done(*F.make_array_morphism());)
    FORM("make_term_declarator()", r.done(*F.make_term_declarator());)
    FORM("make_targeted_declarator(Species_declarator,Type)", auto& s = r.SPEC(); auto& t = r.T(); r.done(*F.make_targeted_declarator(s, t));)
@@ -998,13 +1279,44 @@ namespace {
          const ipr::Expr_list& x = *xl;
          const std::string id = c.ob.show(x);
          std::cout << "G new xlist " << id << '\n';
-         obs_growth(c, id.c_str(), x.elements(), static_cast<const ipr::Product&>(*ipr::util::view<ipr::Product>(x.type())));
+         auto obs = [&] { obs_growth(c, id.c_str(), x.elements(), static_cast<const ipr::Product&>(*ipr::util::view<ipr::Product>(x.type()))); };
+         obs();
+         // Two members in five are LATE: added while their type is still unset (an unresolved id-expression, a phantom, a loop
+         // without body, an instantiation without instance) or provisional, and typed / linked / re-typed some steps later, AFTER
+         // the type of the list was read.  `G retype` reports the member's type as it is from then on.
+         struct Pending { const ipr::Expr* member; std::function<void()> resolve; int more; };
+         std::vector<Pending> pending;
+         auto resolve_one = [&] {
+            const std::size_t k = g() % pending.size();
+            Pending p = pending[k];
+            pending.erase(pending.begin() + k);
+            p.resolve();
+            ++c.stats["growth: members typed or linked after the list's type was read"];
+            std::cout << "G retype " << id << ' ' << c.ob.show(*p.member) << " type=" << verif::guard([&] { return c.ob.show(p.member->type()); }) << '\n';
+            obs();
+            if (p.more > 0) pending.push_back({p.member, p.resolve, p.more - 1});
+         };
          for (int i = 0; i < n; ++i) {
-            const ipr::Expr& e = E();
-            xl->push_back(&e);
-            std::cout << "G add " << id << ' ' << c.ob.show(e) << " type=" << c.ob.show(e.type()) << '\n';
-            obs_growth(c, id.c_str(), x.elements(), static_cast<const ipr::Product&>(*ipr::util::view<ipr::Product>(x.type())));
+            if (not pending.empty() and g() % 3 == 0) resolve_one();
+            const ipr::Expr* e = nullptr;
+            if (g() % 5 < 2) {
+               switch (g() % 5) {
+               case 0: { auto* m = L.make_id_expr(N()); e = m; pending.push_back({e, [m, &T] { m->typing = &T(); }, 0}); break; }
+               case 1: { auto* m = L.make_id_expr(N(), L.get_auto()); e = m; pending.push_back({e, [m, &T] { m->typing = &T(); }, static_cast<int>(g() % 3)}); break; }
+               case 2: { auto* m = L.make_phantom(); e = m; pending.push_back({e, [m, &T] { m->typing = &T(); }, 0}); break; }
+               case 3: { auto* m = L.make_while(); e = m; pending.push_back({e, [m, &E] { m->control = &E(); m->stmt = &E(); }, 1}); break; }
+               default: { auto* m = L.make_instantiation(E(), *c.substitutions[g() % c.substitutions.size()]); e = m;
+                          pending.push_back({e, [m, &E] { m->result = &E(); }, 0}); break; }
+               }
+               ++c.stats["growth: members added before their type is final"];
+            }
+            else
+               e = &E();
+            xl->push_back(e);
+            std::cout << "G add " << id << ' ' << c.ob.show(*e) << " type=" << verif::guard([&] { return c.ob.show(e->type()); }) << '\n';
+            obs();
          }
+         while (not pending.empty()) resolve_one();
       }
       else if (kind == "enum") {
          impl::Enum* en = L.make_enum(*parent, ipr::Enum::Kind::Legacy);
@@ -1082,6 +1394,7 @@ int main(int argc, char** argv)
          std::cout << "X bad-op " << op << '\n';
       std::cout.flush();
    }
+   for (auto& st : c.stats) std::cout << "# stat " << st.second << ' ' << st.first << '\n';
    std::cout << "END\n";
    return 0;
 }
